@@ -213,6 +213,8 @@ func behaviours(r *hx.Rand) map[string][]sv.Op {
 		"read-beyond":   {{K: "read", N: 9}},
 		"ret-other":     {{K: "ret", Ret: "other"}},
 		"ret-eof":       {{K: "ret", Ret: "eof"}},
+		"ret-wrapeof":   {{K: "read", N: 1}, {K: "ret", Ret: "wrapeof"}},
+		"ret-iseof":     {{K: "ret", Ret: "iseof"}},
 		"ret-stream":    {{K: "ret", Ret: "stream", Cond: "policy-violation"}},
 		"reply-then-err": {sv.W(sv.GenWrite("result", "x")...), {K: "ret", Ret: "other"}},
 	}
@@ -232,7 +234,7 @@ func (x *runner) exhaustive(r *hx.Rand, thorough bool) {
 		id  string
 		has bool
 	}{{"x", true}, {"", false}}
-	froms := []string{"", "a@example.net/r", sv.OwnBare, "@@"}
+	froms := []string{"", "a@example.net/r", sv.OwnBare, "@@", "example.net"}
 	payloads := []string{"", "<query xmlns='urn:example:q'/>", "text"}
 	if thorough {
 		types = append(types, "foo")
@@ -240,7 +242,7 @@ func (x *runner) exhaustive(r *hx.Rand, thorough bool) {
 			id  string
 			has bool
 		}{"", true})
-		froms = append(froms, "A@EXAMPLE.net/r", sv.OwnFull)
+		froms = append(froms, "A@EXAMPLE.net/r", sv.OwnFull, "me@example.net/other", "example.net/res")
 		payloads = append(payloads, "  <query xmlns='urn:example:q'/>", "<iq type='result' id='x'/>")
 	}
 	beh := behaviours(r)
@@ -348,6 +350,9 @@ func (x *runner) random(r *hx.Rand) {
 		sb.WriteString("</stream:stream>")
 	}
 	sp := sv.Spec{NS: ns, Own: own, Script: sb.String(), Mode: mode, Progs: progs, Label: "random"}
+	if mode == 0 && r.Chance(1, 8) {
+		sp.OutClosed = true
+	}
 	if mode == 1 {
 		sp.Progs = nil
 		switch r.Intn(4) {
@@ -358,7 +363,7 @@ func (x *runner) random(r *hx.Rand) {
 				{Type: "set", Space: "urn:xmpp:ping", Local: "ping", Prog: replyProg("x")}}
 		}
 	}
-	if r.Chance(1, 3) {
+	if !sp.OutClosed && r.Chance(1, 3) {
 		sp.Pend = randPend(r, ns)
 		sp.Label = "random-pending"
 	}
@@ -432,6 +437,14 @@ var corpus = []sv.Spec{
 	{NS: "jabber:server", Own: "example.net", Script: "<iq type='set' id='x'/><iq type='error' id='y'><error type='cancel'/></iq><iq type='result' id='x'>t</iq></stream:stream>",
 		Pend: []sv.PendSpec{{ID: "x", Kind: "iq", Space: "jabber:server", Type: "set", Cancel: true, Prog: []sv.Op{{K: "read", N: 1}}},
 			{ID: "y", Kind: "iq", Type: "get", Prog: []sv.Op{{K: "read", N: 40, Stop: true}, {K: "read", N: 2}}}}, Label: "corpus/colliding-request-cancelled-waiter"},
+	// the sender is the server itself (the domain of our address): the reply still goes to it
+	{NS: "jabber:client", Own: sv.OwnFull, Script: "<iq type='get' id='x' from='example.net'><ping xmlns='urn:xmpp:ping'/></iq><iq type='set' id='y' from='me@example.net/res'/><iq type='get' id='z' from='me@example.net'/></stream:stream>", Label: "corpus/from-own-domain"},
+	// multiplexer: responses nobody waits for are never answered, whatever their payload
+	{NS: "jabber:client", Own: sv.OwnFull, Mode: 1, Script: "<iq type='error' id='x'/><iq type='result' id='y'>text<q xmlns='urn:example:q'/></iq><iq type='error' id='z'> </iq><a/></stream:stream>", Label: "corpus/mux-odd-responses"},
+	// after a local Close() a request cannot be answered: Serve ends with an error instead of going on
+	{NS: "jabber:client", Own: sv.OwnFull, OutClosed: true, Script: "<iq type='result' id='r'/><iq type='get' id='x'/><iq type='get' id='y'/></stream:stream>", Label: "corpus/closed-then-request"},
+	// a handler error that wraps io.EOF ends Serve with that error
+	{NS: "jabber:client", Own: sv.OwnFull, Script: "<iq type='get' id='x'/><iq type='get' id='y'/></stream:stream>", Progs: [][]sv.Op{{{K: "ret", Ret: "wrapeof"}}}, Label: "corpus/handler-wrapped-eof"},
 	// WebSocket framing: requests are answered as on TCP, the peer's <close/> ends Serve
 	{NS: "jabber:client", Own: sv.OwnFull, WS: true, Script: "<iq xmlns='jabber:client' type='get' id='x' from='a@example.net/r'><q xmlns='urn:example:q'/></iq><iq xmlns='jabber:client' type='result' id='y'/><iq type='get' id='z'/><close xmlns='urn:ietf:params:xml:ns:xmpp-framing'/>", Label: "corpus/ws"},
 	{NS: "jabber:client", Own: sv.OwnFull, WS: true, Mode: 1, Script: "<iq xmlns='jabber:client' type='set' id='x' from='me@example.net'/><close xmlns='urn:ietf:params:xml:ns:xmpp-framing'/>", Label: "corpus/ws-mux"},
